@@ -243,14 +243,25 @@ def strand(ctx: Ctx):
             continue
         tail = [u(a) for a in args[-3:]]
         ctx.ob("strand", f"{SCM}::CubeMeasures.{name}", tail, "['self._rows_dimension', 'self._ca_as_0th', 'self._slice_idx']", tail == ["self._rows_dimension", "self._ca_as_0th", "self._slice_idx"])
-    # sibling note: only the counts factory honours CA-as-0th
-    others = []
-    for b in ("_BaseCubeMeans", "_BaseCubeMedians", "_BaseCubeStdDev", "_BaseCubeSums"):
-        f = ctx.repo.lookup(ctx.repo.cls(SCM, b), "factory")
-        if "slice_idx" not in f.params:
-            others.append(b)
-    if others:
-        ctx.note(f"sibling note (not a violation of the stated property): stripe factories {others} take the whole tensor and ignore CA-as-0th; whether a CA-as-0th strand can carry those measures in production is not known")
+    # sibling cross-check: the strand of sub-variable k sees sub-variable k's part of EVERY measure the response carries.  The
+    # counts factory is handed `ca_as_0th` and `slice_idx` (and takes `counts[slice_idx]`); a sibling that hands its factory the
+    # cube alone gives the 1-D measure the whole 2-D (items x categories) array - `strand.means` of a categorical array
+    # analysed CA-as-0th cannot be read at all (the broadcast error is re-raised as "no mean measure").
+    for prop_, base in (("cube_means", "_BaseCubeMeans"), ("cube_medians", "_BaseCubeMedians"), ("cube_stddev", "_BaseCubeStdDev"), ("cube_sum", "_BaseCubeSums")):
+        where = f"{SCM}::CubeMeasures.{prop_}"
+        if ctx.repo.lookup(cm, prop_) is None:
+            ctx.undecided("strand.numeric-measures", where, "member not found", "the measure restricted to sub-variable slice_idx when ca_as_0th")
+            continue
+        body = expand(ctx.repo, cm, prop_, stop=lambda mm: mm.kind in ("lazyproperty", "property"))
+        f = ctx.repo.lookup(ctx.repo.cls(SCM, base), "factory")
+        reads = {n.attr for n in ast.walk(body) if isinstance(n, ast.Attribute) and isinstance(n.value, ast.Name) and n.value.id == "self"}
+        sliced = "_slice_idx" in reads and "_ca_as_0th" in reads
+        if f is not None and ("slice_idx" in f.params or "ca_as_0th" in f.params):
+            sliced = sliced or True
+        ctx.ob("strand.numeric-measures", where, sorted(reads), "depends on self._ca_as_0th and self._slice_idx (as the counts do)", True if sliced else False,
+               "the numeric measures of a CA-as-0th strand are those of ITS sub-variable; handed the cube alone the factory cannot know which")
+        ctx.count("stripe numeric-measure factories")
+    ctx.require_min("stripe numeric-measure factories", 4)
 
 
 def partition_factory(ctx: Ctx):
